@@ -264,6 +264,8 @@ func (p *Package) refInst(class string, t *Ty, st *Struct) string {
 		return "dep." + ci.Prefix + "Pt()"
 	case "index":
 		return "zzRef" + ci.Prefix + "Index"
+	case "mid":
+		return "zzRef" + ci.Prefix + "Mid"
 	}
 	switch class {
 	case "eq":
@@ -407,6 +409,8 @@ func (s *Struct) DeriveSpecSexp() string {
 // indexSpecSexp: ZzIndex (lib.go.txt)
 const indexSpecSexp = "(spec ZzIndex (origin 0 0 0 0) (params) (fields (f Keys []string plain nonempty) (f byName map[string]int plain nonempty) (f Ptr *int plain nonempty) (f n int plain nonempty)))"
 
+const midSpecSexp = "(spec ZzMid (origin 0 0 0 0) (params) (fields (f Deep ZzIndex plain nonempty) (f tag string plain nonempty)))"
+
 const ptSpecSexp = "(spec Pt (origin 0 0 0 0) (params) (fields (f x int plain nonempty) (f y string plain nonempty)))"
 
 func prim(name string) string { return "(prim " + escAtom(name) + ")" }
@@ -473,6 +477,14 @@ func (p *Package) instExpr(class string, t *Ty, st *Struct, top *Struct) string 
 			return "(struct " + indexSpecSexp + " (insts (slice " + prim("eq.String") + ") (gomap " + prim("eq.Given[int]") + ") (ptr " + prim("eq.Given[int]") + ") " + prim("eq.Given[int]") + "))"
 		case "clone":
 			return "(struct " + indexSpecSexp + " (insts (slice " + prim("clone.Given") + ") (gomap " + prim("clone.Given") + ") (ptr " + prim("clone.Given") + ") " + prim("clone.Given") + "))"
+		}
+	case "mid":
+		// ZzMid nests ZzIndex: the derived instance is recursive at every level
+		switch class {
+		case "eq":
+			return "(struct " + midSpecSexp + " (insts " + rec(&Ty{K: "index"}) + " " + prim("eq.String") + "))"
+		case "clone":
+			return "(struct " + midSpecSexp + " (insts " + rec(&Ty{K: "index"}) + " " + prim("clone.Given") + "))"
 		}
 	}
 	switch class {
@@ -1270,7 +1282,9 @@ func (p *Package) emitDeriveOp(w *strings.Builder, s *Struct, d Derive) {
 		w.WriteString("\t\t\t\tme := ins.Empty()\n\t\t\t\tmxy := ins.Combine(a1, a2)\n\t\t\t\tml := ins.Combine(mxy, a3)\n\t\t\t\tmr := ins.Combine(a1, ins.Combine(a2, a3))\n\t\t\t\tmex := ins.Combine(me, a1)\n\t\t\t\tmxe := ins.Combine(a1, me)\n")
 		fmt.Fprintf(w, "\t\t\t\treturn \"empty=\" + %s + \" xy=\" + %s + \" xy_z=\" + %s + \" x_yz=\" + %s + \" ex=\" + %s + \" xe=\" + %s\n\t\t\t})\n", dv("me"), dv("mxy"), dv("ml"), dv("mr"), dv("mex"), dv("mxe"))
 	case "clone":
-		hv := func(v, tab string) string { return "zzHVRec(zzFP_" + s.Name + "(&" + v + "), " + app + ", " + tab + ")" }
+		hv := func(v, tab string) string {
+			return "zzHVRec(zzFP_" + s.Name + "(&" + v + "), " + app + ", " + tab + ")"
+		}
 		fmt.Fprintf(w, "\t\t\ttab := zzNewAddrTab()\n\t\t\txs := %s\n", hv("a1", "tab"))
 		fmt.Fprintf(w, "\t\t\tout.Case(%s+%s+\" \"+xs+\")\", func() string {\n", head, hv("z", "zzNewAddrTab()"))
 		fmt.Fprintf(w, "\t\t\t\tdcl := ins.Clone(a1)\n\t\t\t\ttab.out = true\n\t\t\t\treturn \"clone=\" + %s\n\t\t\t})\n", hv("dcl", "tab"))
